@@ -67,7 +67,13 @@ Owed(v, t, d) ==
 (* errno -> status code, per protocol version *)
 Errnos == {"ENOENT", "EACCES", "EEXIST", "EROFS", "ENOSPC", "EDQUOT", "ENOTEMPTY",
            "ENOTDIR", "ENAMETOOLONG", "EILSEQ", "ELOOP", "EINVAL", "EISDIR",
-           "EIO", "EPERM", "EBADF", "EBUSY", "EXDEV", "EMFILE"}
+           "EIO", "EPERM", "EBADF", "EBUSY", "EXDEV", "EMFILE",
+           \* the SHAPE of the exception is a dimension too: an OSError need not carry an errno
+           \* or a message - OSError("text") (errno and strerror None), io.UnsupportedOperation
+           \* (what a file object opened for writing raises on read), OSError(EIO, None) (errno
+           \* without a message), OSError() (no arguments at all): all are FAILURE, and like
+           \* every other row they earn exactly one well-formed FXP_STATUS
+           "NOERRNO", "UNSUPPORTED", "EIO_NOMSG", "NOARGS"}
 
 FX == [OK |-> 0, EOF |-> 1, NO_SUCH_FILE |-> 2, PERMISSION_DENIED |-> 3, FAILURE |-> 4,
        BAD_MESSAGE |-> 5, OP_UNSUPPORTED |-> 8, FILE_ALREADY_EXISTS |-> 11,
